@@ -203,6 +203,42 @@ def rule_r4(chk, prog):
               'workers are forked is shared by all of them: one worker runs '
               'the command on another worker\'s candidate)', loc=t.loc(g),
               nontrivial=True)
+    # ... and, where checks run in threads of one process, on the thread
+    thread_pools = []
+    for om in prog.pkg_modules():
+        if 'tests' in om.rel():
+            continue
+        for c in ast.walk(om.tree):
+            if isinstance(c, ast.Call) and (call_name(c) or '').split(
+                    '.')[-1] in ('ThreadPool', 'ThreadPoolExecutor',
+                                 'Thread') and (call_name(c) or '').split(
+                                     '.')[0] in ('multiprocessing',
+                                                 'concurrent', 'threading',
+                                                 'ThreadPool',
+                                                 'ThreadPoolExecutor'):
+                fpool = _fn(c)
+                if om.name.startswith('strategy_') or om.name == 'checker':
+                    thread_pools.append((om, c, fpool))
+    has_tid = all(any(isinstance(c, ast.Call) and call_name(c) in (
+        'threading.get_ident', 'threading.get_native_id',
+        'threading.current_thread') for c in ast.walk(expand_locals(
+            g, r.value))) or any(
+                isinstance(c, ast.Call) and (call_name(c) or '').startswith(
+                    'tempfile.') for c in ast.walk(expand_locals(
+                        g, r.value))) for r in rets) if rets else False
+    for (om, c, fpool) in thread_pools:
+        chk.check('C01.R4', f'{om.name}.'
+                  f'{fpool._qualname if fpool else "<module>"}', c, has_tid,
+                  f'{unparse(c)[:50]} runs the checks in threads of one '
+                  'process, but the candidate file name depends on the '
+                  'process id only: all concurrent checks write the same '
+                  'file, a command reads another check\'s candidate and the '
+                  'verdict goes to the wrong one', loc=om.loc(c),
+                  nontrivial=True)
+    chk.instance('C01.R4', 'package', f'{len(thread_pools)} thread-based '
+                 'pools in the strategies', True,
+                 'the name is per process' + (' and per thread' if has_tid
+                                              else ''), nontrivial=False)
     # Popen only in execute; execute only from check / do_golden_runs
     spawn = []
     for om in prog.pkg_modules():
